@@ -18,7 +18,9 @@ type pkgInfo struct {
 	pkg   string
 	owner map[*types.Var]string // field object -> "pkg.Struct"
 	ftype map[string]string     // "pkg.Struct.field" -> type text
-	wraps map[string]string     // method whose whole body is `x.once.Do(..)` -> that sync.Once field
+	rets  map[string]string     // function / method -> why the function value it returns is stateful
+	lits  map[*ast.FuncLit]*Unit
+	wraps map[string]string // method whose whole body is `x.once.Do(..)` -> that sync.Once field
 }
 
 // buildOK: the file takes part in a build without the `verif` tag
@@ -84,9 +86,9 @@ func analysePackage(listed []string) {
 		Uses:       map[*ast.Ident]types.Object{},
 		Selections: map[*ast.SelectorExpr]*types.Selection{},
 	}
-	conf := types.Config{Importer: fakeImporter{}, Error: func(error) {}, DisableUnusedImportCheck: true}
+	conf := types.Config{Importer: theImporter, Error: func(error) {}, DisableUnusedImportCheck: true}
 	tp, _ := conf.Check(files[0].Name.Name, fset, files, info)
-	pi := &pkgInfo{fset: fset, info: info, pkg: files[0].Name.Name, owner: map[*types.Var]string{}, ftype: map[string]string{}, wraps: map[string]string{}}
+	pi := &pkgInfo{fset: fset, info: info, pkg: files[0].Name.Name, owner: map[*types.Var]string{}, ftype: map[string]string{}, wraps: map[string]string{}, rets: map[string]string{}, lits: map[*ast.FuncLit]*Unit{}}
 	// structs declared in the package: owner of every field object, declared type text of every field
 	for _, f := range files {
 		fname := filepath.Base(fset.Position(f.Pos()).Filename)
@@ -153,6 +155,17 @@ func analysePackage(listed []string) {
 			}
 		}
 	}
+	// pass 1 only learns which functions return stateful function values (pi.rets); its output is discarded
+	nu, np, nn := len(out.Units), len(out.Problems), len(out.Notes)
+	for _, f := range files {
+		for _, d := range f.Decls {
+			if fd, ok := d.(*ast.FuncDecl); ok && fd.Body != nil {
+				pi.funcDecl(fd)
+			}
+		}
+	}
+	out.Units, out.Problems, out.Notes = out.Units[:nu], out.Problems[:np], out.Notes[:nn]
+	pi.lits = map[*ast.FuncLit]*Unit{}
 	for _, f := range files {
 		for _, d := range f.Decls {
 			if fd, ok := d.(*ast.FuncDecl); ok && fd.Body != nil {
